@@ -300,6 +300,9 @@ func (w *world) ensureInit(pkg *ssa.Package) {
 			if tp, ok := p.(targetPanic); ok {
 				msg = "panic: " + toString(tp.v)
 			}
+			if w.panicSite != "" {
+				msg += " at " + w.panicSite
+			}
 			w.initFail[pkg] = msg
 			w.ex.mu.Lock()
 			w.ex.initFailed[pkg.Pkg.Path()] = msg
